@@ -35,7 +35,7 @@ def row_alphabet(obj, f, kind, X):
     A = [("seen", seen[0])]
     if len(seen) > 1:
         A.append(("seen2", seen[-1]))
-    A += [("unseen-str", "zz_unseen"), ("unseen-int", 7777), ("unseen-float", 7.5), ("nan", np.nan)]
+    A += [("unseen-str", "zz_unseen"), ("unseen-int", 7777), ("unseen-float", 7.5), ("unseen-empty-str", ""), ("unseen-zero", 0), ("nan", np.nan)]
     if kind == "NUMCAT":
         A.append(("str-form-of-seen", space.str_form(seen[0])))
     return A
